@@ -3,119 +3,176 @@
 import itertools
 from vlib.framework import Family
 from vlib import coqlit as L
+import C15_util as U
+from C15_util import NAMES, ops_universe
 
 PID = "C15"
 PROP_FILES = ["Prop"]
 ALLOWED_AXIOMS = []
-RULE = ("histories of set k v / set (k,k') v / del k (/ delattr k for StrategyDict) on a fresh dict; after EVERY step the "
-        "harness observes d[k] and key2keys(k) for all keys, value2keys(v) for all values, len, keys(), iteration "
-        "(and getattr / default / calling the dict for StrategyDict). Quick: all histories of length 3 over 3 keys x 2 "
-        "values (exhaustive) + seeded random longer ones over 6 keys x 4 values; non-trivial = at least one value owning "
-        ">= 2 keys at some point and at least one deletion or overwrite of an existing key")
+RULE = ("histories of set k v / set (k,k') v / del k / delattr k (StrategyDict) / REJECTED assignment of an unhashable value "
+        "(list, dict, set, bytearray, object with __eq__ and no __hash__: TypeError, a MultiKeyDict must be unchanged) / "
+        "read-only lookups (d[k], d[(k,)], key2keys, value2keys of stored and never stored values, in, iteration, len/keys/"
+        "values/items/repr, hasattr, calling the dict, lookups with unhashable arguments) on a fresh dict or on "
+        "MultiKeyDict(dict); values of one equality class are given through DIFFERENT objects (1 / 1.0 / Fraction / Decimal / "
+        "complex / True, equal tuples, strings, frozensets built separately, bound methods of one object, callables with "
+        "__eq__); before the first and after EVERY step the harness observes d[k] and key2keys(k) for all keys, "
+        "value2keys(v) for all values and one never stored, len, keys(), iteration (and getattr / default / calling the dict "
+        "for StrategyDict); a lookup must leave every observable exactly as it was. Quick: all histories of length 2 over "
+        "3 keys x 2 values + seeded random longer ones for every value kind; non-trivial = at least one value owning >= 2 "
+        "keys at some point and at least one deletion or overwrite of an existing key")
 EXHAUSTIVE = {"quick": False, "thorough": True}
-trusted_base = ["keys are modelled as naturals (ints for MultiKeyDict, attribute-safe names 'a'..'f' for StrategyDict); "
-                "names colliding with class attributes of StrategyDict ('default', 'strategy', dict methods) are outside the model"]
-ASSUMPTIONS = ["CPython dict ordering semantics (insertion order, update in place)"]
+trusted_base = ["keys are modelled as naturals (ints for MultiKeyDict, attribute-safe names 'aa'..'gg' for StrategyDict; equal keys are given through different objects: 1 / 1.0 / Fraction / Decimal, separately built strings); "
+                "names colliding with class attributes of StrategyDict ('default', 'strategy', dict methods) are outside the model",
+                "values are modelled by their equality class (a natural); which of several equal objects is kept is not modelled"]
+ASSUMPTIONS = ["CPython dict ordering semantics (insertion order, update in place)",
+               "a StrategyDict assignment rejected with TypeError has already released its names (the code deletes them "
+               "first); the specification states that behaviour for StrategyDict and 'unchanged' for MultiKeyDict"]
 
-NAMES = "abcdef"
+_GEN_CALLS = []   # tiers gen_dict was called with in this process: a 'thorough' call after a 'quick' one is the
+                  # driver's widened search after a broken obligation and must stay bounded
 
 
-def ops_universe(nk, nv, strategy):
-  ops = []
-  for k in range(nk):
-    for v in range(1, nv + 1):
-      ops.append(["set", [k], v])
-  for k, k2 in itertools.permutations(range(nk), 2):
-    for v in range(1, nv + 1):
-      ops.append(["set", [k, k2], v])
-  for k in range(nk):
-    ops.append(["del", k])
-  if strategy:
-    for k in range(nk):
-      ops.append(["delattr", k])
-  return ops
+def _legacy(strategy, ops, tag, nk=3, nv=2):
+  return {"strategy": strategy, "nk": nk, "nv": nv, "vk": "fn" if strategy else "int", "init": [],
+          "ops": list(ops), "tags": [tag, "sd" if strategy else "mkd"]}
 
 
 def gen_dict(tier, rng):
+  widened = tier == "thorough" and "quick" in _GEN_CALLS
+  _GEN_CALLS.append(tier)
   for strategy in (False, True):
-    tag = "sd" if strategy else "mkd"
-    U = ops_universe(3, 2, strategy)
-    for h in itertools.product(U, repeat=2):
-      yield {"strategy": strategy, "nk": 3, "nv": 2, "ops": list(h), "tags": ["exh2", tag]}
-    if tier == "thorough":
+    kinds = U.SD_KINDS if strategy else U.MKD_KINDS
+    Uo = ops_universe(3, 2, strategy)
+    if not widened:
+      for h in itertools.product(Uo, repeat=2):
+        yield _legacy(strategy, h, "exh2")
+    if tier == "thorough" and not widened:
       for n in (3, 4):
-        for h in itertools.product(U, repeat=n):
-          yield {"strategy": strategy, "nk": 3, "nv": 2, "ops": list(h), "tags": ["exh%d" % n, tag]}
+        for h in itertools.product(Uo, repeat=n):
+          yield _legacy(strategy, h, "exh%d" % n)
     else:
-      for _ in range(3000):
-        yield {"strategy": strategy, "nk": 3, "nv": 2, "ops": [rng.choice(U) for _ in range(rng.choice([3, 3, 4, 5, 6]))],
-               "tags": ["rand3-6", tag]}
+      for _ in range(900 if not widened else 1000):
+        yield _legacy(strategy, [rng.choice(Uo) for _ in range(rng.choice([3, 3, 4, 5, 6]))], "rand3-6")
     U2 = ops_universe(6, 4, strategy) + [["set", [rng.randrange(6) for _ in range(3)], v] for v in range(1, 5) for _ in range(10)]
-    for _ in range(200 if tier == "quick" else 3000):
-      yield {"strategy": strategy, "nk": 6, "nv": 4, "ops": [rng.choice(U2) for _ in range(rng.randrange(8, 41))],
-             "tags": ["long", tag]}
+    for _ in range(100 if tier == "quick" else (100 if widened else 3000)):
+      yield _legacy(strategy, [rng.choice(U2) for _ in range(rng.randrange(8, 41))], "long", 6, 4)
+    # round 2: value kinds, rejected assignments, lookups, constructor argument
+    per = {"quick": 1400, "thorough": 20000}[tier] if not widened else 2000   # widened search: ~6 000 extra cases in all
+    for i in range(per):
+      kind = kinds[i % len(kinds)]
+      if i % 10 == 0:
+        yield U.rand_case(rng, strategy, 6, 4, kind, 8, 30, "kinds-long")
+      else:
+        yield U.rand_case(rng, strategy, 3, 2, kind, 2, 8, "kinds")
+    if not widened:
+      for kind in kinds:
+        if kind not in ("int", "fn"):
+          for c in U.targeted(strategy, kind):
+            yield c
 
 
-class Fn(object):
-  """Strategy values: callables with identity equality, calling returns the index."""
-  def __init__(self, i): self.i = i
-  def __call__(self): return self.i
-  def __repr__(self): return "f%d" % self.i
+def _expect(op):
+  """exception type an operation may raise (recorded as raised); anything else aborts the case"""
+  if op[0] == "del": return (KeyError,)
+  if op[0] == "delattr": return (AttributeError,)
+  if op[0] == "setbad": return (TypeError,)
+  if op[0] == "obs":
+    if op[1] in ("get", "k2k"): return (KeyError,)
+    if op[1] == "bad": return (TypeError,)
+  return ()
+
+
+def _observe(d, op, K, V, strategy):
+  qk, arg, var = op[1], op[2], op[3]
+  if qk == "get": d[K(arg)]
+  elif qk == "gett":
+    try: d[(K(arg),)]
+    except KeyError: pass
+  elif qk == "k2k": d.key2keys(K(arg))
+  elif qk == "v2k": d.value2keys(V(arg, var))
+  elif qk == "in": (K(arg) in d, (K(arg),) in d, d.__contains__(K(arg)))
+  elif qk == "iter":
+    list(d); next(iter(d), None)
+    for _ in d: break
+  elif qk == "misc": (len(d), list(d.keys()), list(d.values()), list(d.items()), repr(d), bool(d), d.copy(), d == d)
+  elif qk == "hasattr": (hasattr(d, NAMES[arg] * 2), getattr(d, NAMES[arg] * 2, None), hasattr(d, "default"))
+  elif qk == "call":
+    if strategy: (d(), d.default)
+    else: len(d)
+  elif qk == "bad":
+    bad = U.make_bad(U.BAD_KINDS[var % len(U.BAD_KINDS)])
+    [lambda: d[bad], lambda: d.key2keys(bad), lambda: d.value2keys(bad)][arg % 3]()
+
+
+def _view(d, c, K, unK, vals, raised):
+  strategy, nk, nv = c["strategy"], c["nk"], c["nv"]
+  view = {"raised": raised}
+  get, k2k = [], []
+  for k in range(nk):
+    try: get.append(vals.cls(d[K(k)]))
+    except KeyError: get.append(None)
+    try: k2k.append([unK(x) for x in d.key2keys(K(k))])
+    except KeyError: k2k.append(None)
+  view["get"], view["k2k"] = get, k2k
+  view["v2k"] = [[unK(x) for x in d.value2keys(vals.make(v, v))] for v in range(1, nv + 2)]
+  view["len"] = len(d)
+  view["keys"] = [[unK(x) for x in t] for t in d.keys()]
+  view["iter"] = [vals.cls(x) for x in d]
+  if strategy:
+    view["attr"] = [vals.cls(vars(d)[K(k)]) if K(k) in vars(d) else None for k in range(nk)]
+    inst = vars(d).get("default")
+    called = d()
+    dv = None if called is NotImplemented else called
+    if (inst is None) != (dv is None) or (inst is not None and (vals.cls(inst) != dv or d.default is not inst)):
+      dv = 999  # calling the dict did not call the stored default
+    view["default"] = dv
+  else:
+    view["attr"], view["default"] = [], None
+  return view
 
 
 def run_dict(c):
   import audiolazy
   from audiolazy.lazy_core import MultiKeyDict, StrategyDict
-  strategy, nk, nv = c["strategy"], c["nk"], c["nv"]
+  strategy, nv = c["strategy"], c["nv"]
+  vals = U.Values(c["vk"], nv)
+  V = vals.make
+  kvar = c.get("kvar", False)   # keys too are given through equal-but-distinct objects
   if strategy:
     d = StrategyDict("verif_sd")
-    K = lambda k: NAMES[k]
-    vals = {v: Fn(v) for v in range(1, nv + 1)}
-    V = lambda v: vals[v]
-    unV = lambda f: f.i
+    K0 = lambda k: NAMES[k] * 2
+    unK = lambda s: NAMES.index(s[0])
   else:
-    d = MultiKeyDict()
-    K = lambda k: k
-    V = lambda v: v
-    unV = lambda v: v
-  unK = (lambda s: NAMES.index(s)) if strategy else (lambda k: k)
-  views = []
-  for op in c["ops"]:
+    K0 = lambda k: k
+    unK = int
+    d = MultiKeyDict(dict((U.key_variant(k, var, False) if kvar else k, V(v, var)) for k, v, var in c["init"])) \
+        if c["init"] else MultiKeyDict()
+  views = [_view(d, c, K0, unK, vals, False)]
+  for i, op in enumerate(c["ops"]):
     raised = False
+    K = (lambda k: U.key_variant(K0(k), i + k, strategy)) if kvar else K0
     try:
       if op[0] == "set":
         ks = [K(k) for k in op[1]]
-        d[tuple(ks) if len(ks) > 1 else ks[0]] = V(op[2])
+        var = op[3] if len(op) > 3 else 0
+        if len(op) > 4 and strategy:   # through the decorator factory
+          keep = c["vk"] == "bound" or var % 2 == 0
+          d.strategy(*ks, keep_name=keep)(V(op[2], var))
+        else:
+          d[tuple(ks) if len(ks) > 1 or var % 3 == 2 else ks[0]] = V(op[2], var)
+      elif op[0] == "setbad":
+        ks = [K(k) for k in op[1]]
+        d[tuple(ks) if len(ks) > 1 else ks[0]] = U.make_bad(op[2])
       elif op[0] == "del":
         del d[K(op[1])]
-      else:
+      elif op[0] == "delattr":
         delattr(d, K(op[1]))
-    except (KeyError, AttributeError):
+      else:
+        _observe(d, op, K, V, strategy)
+    except _expect(op):
       raised = True
-    view = {"raised": raised}
-    get, k2k = [], []
-    for k in range(nk):
-      try: get.append(unV(d[K(k)]))
-      except KeyError: get.append(None)
-      try: k2k.append([unK(x) for x in d.key2keys(K(k))])
-      except KeyError: k2k.append(None)
-    view["get"], view["k2k"] = get, k2k
-    view["v2k"] = [[unK(x) for x in d.value2keys(V(v))] for v in range(1, nv + 1)]
-    view["len"] = len(d)
-    view["keys"] = [[unK(x) for x in t] for t in d.keys()]
-    view["iter"] = [unV(x) for x in d]
-    if strategy:
-      view["attr"] = [unV(getattr(d, K(k))) if hasattr(d, K(k)) else None for k in range(nk)]
-      inst = vars(d).get("default")
-      called = d()
-      dv = None if called is NotImplemented else called
-      if (inst is None) != (dv is None) or (inst is not None and unV(inst) != dv):
-        dv = 999  # calling the dict did not call the stored default
-      view["default"] = dv
-    else:
-      view["attr"], view["default"] = [], None
-    views.append(view)
-  return {"views": views}
+    views.append(_view(d, c, K0, unK, vals, raised))
+  return {"view0": views[0], "views": views[1:]}
 
 
 def _ot(t):
@@ -126,32 +183,45 @@ def _ov(v):
   return "None" if v is None else "(Some %d)" % v
 
 
+def _lit_view(v):
+  return "VIEW %s %s %s %s %d %s %s %s %s" % (
+    L.boolean(v["raised"]), L.lst([_ov(x) for x in v["get"]]), L.lst([_ot(t) for t in v["k2k"]]),
+    L.lst([L.lst([str(x) for x in t]) for t in v["v2k"]]), v["len"],
+    L.lst([L.lst([str(x) for x in t]) for t in v["keys"]]), L.lst([str(x) for x in v["iter"]]),
+    L.lst([_ov(x) for x in v["attr"]]), _ov(v["default"]))
+
+
+def _lit_op(op):
+  ks = lambda l: L.lst([str(k) for k in l])
+  if op[0] == "set": return "OSet %s %d" % (ks(op[1]), op[2])
+  if op[0] == "setbad": return "OSetBad %s" % ks(op[1])
+  if op[0] == "del": return "ODel %d" % op[1]
+  if op[0] == "delattr": return "ODelAttr %d" % op[1]
+  q = {"get": "(QGet %d)" % op[2], "k2k": "(QK2K %d)" % op[2], "v2k": "(QV2K %d)" % op[2], "bad": "QBad"}.get(op[1], "QPure")
+  return "OObs %s" % q
+
+
 def lit_dict(c, o):
-  ops = []
-  for op in c["ops"]:
-    if op[0] == "set": ops.append("OSet %s %d" % (L.lst([str(k) for k in op[1]]), op[2]))
-    elif op[0] == "del": ops.append("ODel %d" % op[1])
-    else: ops.append("ODelAttr %d" % op[1])
-  views = []
-  for v in o.get("views", []):
-    views.append("VIEW %s %s %s %s %d %s %s %s %s" % (
-      L.boolean(v["raised"]), L.lst([_ov(x) for x in v["get"]]), L.lst([_ot(t) for t in v["k2k"]]),
-      L.lst([L.lst([str(x) for x in t]) for t in v["v2k"]]), v["len"],
-      L.lst([L.lst([str(x) for x in t]) for t in v["keys"]]), L.lst([str(x) for x in v["iter"]]),
-      L.lst([_ov(x) for x in v["attr"]]), _ov(v["default"])))
-  return "(DC %s %s %s %s %s)" % (L.boolean(c["strategy"]), L.lst([str(k) for k in range(c["nk"])]),
-                                  L.lst([str(v) for v in range(1, c["nv"] + 1)]), L.lst(ops), L.lst(views))
+  ops = [_lit_op(op) for op in c["ops"]]
+  init = ["OSet [%d] %d" % (k, v) for k, v, _ in c["init"]]
+  if "views" in o:
+    v0, views = "(%s)" % _lit_view(o["view0"]), [_lit_view(v) for v in o["views"]]
+  else:   # the implementation raised an exception no operation may raise: no view can match
+    v0, views = "(VIEW true [] [] [] 0 [] [] [] None)", []
+  return "(DC %s %s %s %s %s %s %s)" % (L.boolean(c["strategy"]), L.lst([str(k) for k in range(c["nk"])]),
+                                       L.lst([str(v) for v in range(1, c["nv"] + 2)]), L.lst(init), v0,
+                                       L.lst(ops), L.lst(views))
 
 
 def nontrivial_dict(c, o):
   views = o.get("views", [])
   multi = any(any(len(t) >= 2 for t in v["v2k"]) for v in views)
-  seen, overwrite = set(), False
+  seen, overwrite = set(k for k, _, _ in c["init"]), False
   for op in c["ops"]:
-    if op[0] == "set":
+    if op[0] in ("set", "setbad"):
       if any(k in seen for k in op[1]): overwrite = True
-      seen.update(op[1])
-    elif op[1] in seen:
+      if op[0] == "set": seen.update(op[1])
+    elif op[0] in ("del", "delattr") and op[1] in seen:
       overwrite = True
   return multi and overwrite
 
